@@ -35,11 +35,23 @@ def gen_itf_init(rng, i):
         a = [{"tag": 1, "vars": c05.sub_nonempty(rng, inv)}] if inv and rng.random() < 0.7 else []
         g = [{"tag": 2, "vars": c05.sub_nonempty(rng, inv + outv)}] if inv + outv and rng.random() < 0.8 else []
         if not valid:
-            fault = rng.choice(["dup_in", "dup_out", "overlap", "stray_a", "stray_g", "none"])
+            fault = rng.choice(["dup_in", "dup_out", "dup_many", "overlap", "stray_a", "stray_g", "none"])
             if fault == "dup_in" and inv:
                 inv = inv + [rng.choice(inv)]
             elif fault == "dup_out" and outv:
                 outv = outv + [rng.choice(outv)]
+            elif fault == "dup_many" and (len(inv) > 1 or len(outv) > 1 or (inv and outv)):
+                # several names repeated at once (in one list or in both), one of them possibly three times
+                how = rng.choice(["two_in_one", "both_lists", "thrice"])
+                big = inv if len(inv) >= len(outv) else outv
+                if how == "two_in_one" and len(big) > 1:
+                    big.extend(rng.sample(big, 2))
+                    rng.shuffle(big)
+                elif how == "both_lists" and inv and outv:
+                    inv, outv = inv + [rng.choice(inv)], outv + [rng.choice(outv)]
+                else:
+                    v = rng.choice(big)
+                    big.extend([v, v])
             elif fault == "overlap" and inv:
                 outv = outv + [rng.choice(inv)]
             elif fault == "stray_a":
